@@ -111,3 +111,28 @@ func (v *v2remote) snapshot() []wmsg {
 	defer v.mu.Unlock()
 	return append([]wmsg(nil), v.msgs...)
 }
+
+// stoppedEarly: the reader ended on something else than the end of the stream.
+func (v *v2remote) stoppedEarly() bool {
+	v.mu.Lock()
+	defer v.mu.Unlock()
+	return v.err != nil && v.err != io.EOF && v.err != io.ErrUnexpectedEOF
+}
+
+func (v *v2remote) endClass() string {
+	v.mu.Lock()
+	defer v.mu.Unlock()
+	switch {
+	case v.err == nil:
+		return "never-started-or-running"
+	case v.err == io.EOF:
+		return "eof"
+	case v.err == io.ErrUnexpectedEOF:
+		return "eof-inside-packet"
+	}
+	e := v.err.Error()
+	if len(e) > 60 {
+		e = e[:60]
+	}
+	return e
+}
